@@ -4,7 +4,7 @@ import ApdVerif.Lemmas.C17Lemmas
 # C17 — integer conversions and Modf are exact
 -/
 namespace Apd.Props
-open Apd
+open Apd Apd.C17L
 
 /-- Modf: `integ + frac = d` exactly, `integ` an integer with exponent ≥ 0, `|frac| < 1`, both
 carry `d`'s sign (stated on coefficients scaled to the common exponent). -/
